@@ -99,4 +99,405 @@ theorem newStateH_eq_newState (ws : List Nat) (hp0 : List Bool) (rr0 : Nat) (pre
     have : decide (ws.length > 1) = false := by simp; omega
     simp [h1, this]
 
+/-! ### the scheduler under lookups: its picks do not depend on health -/
+
+/-- the scheduler of a balancer over `ws`: invariant, item-determined weights, one entry per host. -/
+def SchedOK (ws : List Nat) (s : Sched) : Prop :=
+  Inv s ∧ StaticW s (wrrWeight ws) ∧ s.entries.map (·.item) = List.range ws.length
+
+theorem wrrWeight_pos (ws : List Nat) (k : Nat) : 0 < wrrWeight ws k := Rat.intCast_pos.mpr (wrrW_pos ws k)
+
+theorem refresh_ok (ws : List Nat) (pre : List (Option Nat)) : SchedOK ws (refresh (wrrWeight ws) ws.length pre) :=
+  refresh_facts _ (wrrWeight_pos ws) _ _
+
+theorem next_some {ws : List Nat} {s : Sched} (hok : SchedOK ws s) (hn : 0 < ws.length) (wf : Nat → Rat)
+    (hint : Option Nat) : ∃ i s', s.nextAndPush wf hint = some (i, s') := by
+  have hne : s.entries ≠ [] := by
+    intro h
+    have := hok.2.2
+    rw [h] at this
+    simp at this
+    rw [this] at hn
+    simp at hn
+  have hpick : ∃ e, s.pick hint = some e := by
+    unfold Sched.pick
+    split
+    · rename_i e _; exact ⟨e, rfl⟩
+    · have := minEntry_isSome hne
+      cases hm : minEntry s.entries with
+      | none => rw [hm] at this; simp at this
+      | some e => exact ⟨e, rfl⟩
+  obtain ⟨e, he⟩ := hpick
+  unfold Sched.nextAndPush; rw [he]; exact ⟨_, _, rfl⟩
+
+theorem next_ok {ws : List Nat} {s s' : Sched} {i : Nat} {hint : Option Nat} (hok : SchedOK ws s)
+    (hn : s.nextAndPush (wrrWeight ws) hint = some (i, s')) : SchedOK ws s' ∧ i < ws.length := by
+  obtain ⟨h1, h2, h3⟩ := hok
+  obtain ⟨hi, hitems, _⟩ := next_deadlines h1 hn
+  refine ⟨⟨inv_next h1 (wrrWeight_pos ws) hn, static_next h2 hn, hitems.trans h3⟩, ?_⟩
+  rw [h3] at hi
+  simpa using hi
+
+theorem run_cons_some {s s' : Sched} {wf : Nat → Rat} {h : Option Nat} {i : Nat} (t : List (Option Nat))
+    (hn : s.nextAndPush wf h = some (i, s')) : s.run wf (h :: t) = (i :: (s'.run wf t).1, (s'.run wf t).2) := by
+  rw [Sched.run]
+  simp only [hn]
+
+/-- runs compose (when the first one is not cut short by an empty queue). -/
+theorem run_append (wf : Nat → Rat) (H1 H2 : List (Option Nat)) (s : Sched)
+    (hl : (s.run wf H1).1.length = H1.length) :
+    s.run wf (H1 ++ H2) = ((s.run wf H1).1 ++ ((s.run wf H1).2.run wf H2).1, ((s.run wf H1).2.run wf H2).2) := by
+  induction H1 generalizing s with
+  | nil => simp [Sched.run]
+  | cons h t ih =>
+    cases hn : s.nextAndPush wf h with
+    | none =>
+      rw [Sched.run] at hl
+      simp [hn] at hl
+    | some p =>
+      obtain ⟨i, s'⟩ := p
+      rw [run_cons_some t hn] at hl ⊢
+      simp only [List.length_cons, Nat.add_right_cancel_iff] at hl
+      rw [List.cons_append, run_cons_some (t ++ H2) hn, ih s' hl]
+      simp
+
+theorem loopH_edfLoop (hs : Hosts) (wf : Nat → Rat) (k : Nat) (s : Sched) (hints : List (Option Nat)) :
+    (loopH hs wf k s hints).2 = edfLoop hs wf k s hints := by
+  induction k generalizing s hints with
+  | zero => rfl
+  | succ k ih =>
+    unfold loopH edfLoop
+    cases hn : s.nextAndPush wf (hints.headD none) with
+    | none => rfl
+    | some p =>
+      obtain ⟨i, s'⟩ := p
+      simp only
+      split
+      · rfl
+      · exact ih s' hints.tail
+
+/-- the picks of one weighted loop are a run of the scheduler (whatever the health pattern). -/
+theorem loopH_run (ws : List Nat) (hs : Hosts) (hn : 0 < ws.length) (k : Nat) (s : Sched) (hok : SchedOK ws s)
+    (hints : List (Option Nat)) :
+    ∃ H, s.run (wrrWeight ws) H = ((loopH hs (wrrWeight ws) k s hints).1, (loopH hs (wrrWeight ws) k s hints).2.2.1) ∧
+      H.length = (loopH hs (wrrWeight ws) k s hints).1.length ∧ SchedOK ws (loopH hs (wrrWeight ws) k s hints).2.2.1 := by
+  induction k generalizing s hints with
+  | zero => exact ⟨[], by simp [loopH, Sched.run], by simp [loopH], by simpa [loopH] using hok⟩
+  | succ k ih =>
+    obtain ⟨i, s', hnp⟩ := next_some hok hn (wrrWeight ws) (hints.headD none)
+    obtain ⟨hok', _⟩ := next_ok hok hnp
+    unfold loopH
+    simp only [hnp]
+    split
+    · exact ⟨[hints.headD none], by rw [run_cons_some [] hnp]; simp [Sched.run], by simp, hok'⟩
+    · obtain ⟨H, h1, h2, h3⟩ := ih s' hok' hints.tail
+      refine ⟨hints.headD none :: H, ?_, by simp [h2], h3⟩
+      rw [run_cons_some H hnp, h1]
+
+/-- what the weighted loop guarantees: picks are hosts of the set; every pick but the last one was unhealthy; a result is
+the last pick and healthy; without result all `k` picks were unhealthy. -/
+theorem loopH_facts (ws : List Nat) (hs : Hosts) (hn : 0 < ws.length) (k : Nat) (s : Sched) (hok : SchedOK ws s)
+    (hints : List (Option Nat)) :
+    (∀ x ∈ (loopH hs (wrrWeight ws) k s hints).1, x < ws.length) ∧
+    (∀ x ∈ (loopH hs (wrrWeight ws) k s hints).1.dropLast, hAt hs x = false) ∧
+    (∀ i, (loopH hs (wrrWeight ws) k s hints).2.1 = some i →
+      (loopH hs (wrrWeight ws) k s hints).1.getLast? = some i ∧ hAt hs i = true) ∧
+    ((loopH hs (wrrWeight ws) k s hints).2.1 = none →
+      (loopH hs (wrrWeight ws) k s hints).1.length = k ∧ ∀ x ∈ (loopH hs (wrrWeight ws) k s hints).1, hAt hs x = false) := by
+  induction k generalizing s hints with
+  | zero => simp [loopH]
+  | succ k ih =>
+    obtain ⟨i, s', hnp⟩ := next_some hok hn (wrrWeight ws) (hints.headD none)
+    obtain ⟨hok', hi⟩ := next_ok hok hnp
+    unfold loopH
+    simp only [hnp]
+    split
+    · rename_i hh
+      refine ⟨by simpa using hi, by simp, ?_, by simp⟩
+      intro j hj
+      simp only [Option.some.injEq] at hj
+      subst hj
+      exact ⟨by simp, hh⟩
+    · rename_i hh
+      simp only [Bool.not_eq_true] at hh
+      obtain ⟨f1, f2, f3, f4⟩ := ih s' hok' hints.tail
+      generalize loopH hs (wrrWeight ws) k s' hints.tail = r at f1 f2 f3 f4
+      obtain ⟨picks, res, s2, h2⟩ := r
+      simp only at f1 f2 f3 f4 ⊢
+      refine ⟨?_, ?_, ?_, ?_⟩
+      · intro x hx
+        simp only [List.mem_cons] at hx
+        rcases hx with rfl | hx
+        · exact hi
+        · exact f1 x hx
+      · cases picks with
+        | nil => simp
+        | cons y ys =>
+          intro x hx
+          simp only [List.dropLast_cons_cons, List.mem_cons] at hx
+          rcases hx with rfl | hx
+          · exact hh
+          · exact f2 x hx
+      · intro j hj
+        obtain ⟨g1, g2⟩ := f3 j hj
+        refine ⟨?_, g2⟩
+        cases picks with
+        | nil => simp at g1
+        | cons y ys => simpa using g1
+      · intro hnone
+        obtain ⟨g1, g2⟩ := f4 hnone
+        refine ⟨by simp [g1], ?_⟩
+        intro x hx
+        simp only [List.mem_cons] at hx
+        rcases hx with rfl | hx
+        · exact hh
+        · exact g2 x hx
+
+theorem loopH_nonempty (ws : List Nat) (hs : Hosts) (hn : 0 < ws.length) (k : Nat) (s : Sched) (hok : SchedOK ws s)
+    (hints : List (Option Nat)) : (loopH hs (wrrWeight ws) (k + 1) s hints).1 ≠ [] := by
+  obtain ⟨i, s', hnp⟩ := next_some hok hn (wrrWeight ws) (hints.headD none)
+  unfold loopH
+  simp only [hnp]
+  split <;> simp
+
+/-! ### one lookup -/
+
+theorem good_specChoice {hs : Hosts} {r : Option Nat} (g : Good hs r) : specChoice hs r = true := by
+  unfold specChoice
+  split
+  · rename_i i
+    have := g.1 i rfl
+    simp [this, hAt_lt this]
+  · have := g.2 rfl
+    cases ha : anyHealthy hs
+    · rfl
+    · obtain ⟨i, hi⟩ := (anyHealthy_iff hs).mp ha
+      rw [this i] at hi; simp at hi
+
+theorem weighted_of_last {r : Rec} {l : Nat} (h : r.picks.getLast? = some l) : r.weighted = r.healthyAt l := by
+  unfold Rec.weighted; rw [h]
+
+/-- one `ChooseHost` of a balancer with a scheduler over ≥ 2 hosts, in terms of the traced loop. -/
+theorem look_step (ws : List Nat) (h2 : 2 ≤ ws.length) (health : List Bool) (st : LBState) (s : Sched)
+    (hst : st.sched = some s) (hints : List (Option Nat)) :
+    (wrrChoose (mkH ws health) st { hints := hints }).st.sched =
+        some (loopH (mkH ws health) (wrrWeight ws) ws.length s hints).2.2.1 ∧
+    picksOf (mkH ws health) st hints = (loopH (mkH ws health) (wrrWeight ws) ws.length s hints).1 ∧
+    (∀ i, (loopH (mkH ws health) (wrrWeight ws) ws.length s hints).2.1 = some i →
+      (wrrChoose (mkH ws health) st { hints := hints }).result = some i) ∧
+    ((loopH (mkH ws health) (wrrWeight ws) ws.length s hints).2.1 = none →
+      Good (mkH ws health) (wrrChoose (mkH ws health) st { hints := hints }).result) := by
+  have e := loopH_edfLoop (mkH ws health) (wrrWeight ws) ws.length s hints
+  have h0 : ¬ ws.length = 0 := by omega
+  have h1 : ¬ ws.length = 1 := by omega
+  have hle : ¬ ws.length ≤ 1 := by omega
+  have hp : picksOf (mkH ws health) st hints = (loopH (mkH ws health) (wrrWeight ws) ws.length s hints).1 := by
+    unfold picksOf
+    simp only [mkH_length, hle, if_false, hst, wrrWf_mkH]
+  refine ⟨?_, hp, ?_, ?_⟩
+  all_goals
+    unfold wrrChoose edfFront
+    simp only [mkH_length, h0, h1, if_false, hst, wrrWf_mkH, ← e]
+    generalize loopH (mkH ws health) (wrrWeight ws) ws.length s hints = r
+    obtain ⟨picks, res, s2, hl⟩ := r
+    cases res with
+    | none => first | (simp; done) | (simp; exact rrChoose_good _ _)
+    | some j => simp
+
+/-- the record of a model lookup satisfies the per-lookup predicate. -/
+theorem look_lookupOk (ws : List Nat) (h2 : 2 ≤ ws.length) (health : List Bool) (st : LBState) (s : Sched)
+    (hst : st.sched = some s) (hok : SchedOK ws s) (hints : List (Option Nat)) :
+    lookupOk ws { health := health, picks := picksOf (mkH ws health) st hints,
+                  result := (wrrChoose (mkH ws health) st { hints := hints }).result } = true := by
+  have hn : 0 < ws.length := by omega
+  obtain ⟨_, hp, hsome, hnone⟩ := look_step ws h2 health st s hst hints
+  obtain ⟨f1, f2, f3, f4⟩ := loopH_facts ws (mkH ws health) hn ws.length s hok hints
+  have hne : (loopH (mkH ws health) (wrrWeight ws) ws.length s hints).1 ≠ [] := by
+    obtain ⟨k, hk⟩ : ∃ k, ws.length = k + 1 := ⟨ws.length - 1, by omega⟩
+    rw [hk]; rw [hk] at hn
+    have := loopH_nonempty ws (mkH ws health) (by omega) k s hok hints
+    exact this
+  rw [hp]
+  generalize hr : (wrrChoose (mkH ws health) st { hints := hints }).result = res at hsome hnone
+  generalize hl : loopH (mkH ws health) (wrrWeight ws) ws.length s hints = lp at f1 f2 f3 f4 hne hsome hnone
+  obtain ⟨picks, lres, s2, hleft⟩ := lp
+  simp only at f1 f2 f3 f4 hne hsome hnone
+  unfold lookupOk
+  simp only [Bool.and_eq_true, List.all_eq_true, decide_eq_true_eq, Bool.or_eq_true, Bool.not_eq_true']
+  refine ⟨⟨⟨f1, ?_⟩, ?_⟩, ?_⟩
+  · intro x hx
+    have hm := List.dropLast_subset _ hx
+    have := f2 x hx
+    rw [hAt_mkH_lt (f1 x hm)] at this
+    simpa [Rec.healthyAt] using this
+  · right
+    cases picks with
+    | nil => exact absurd rfl hne
+    | cons y ys => rfl
+  · cases lres with
+    | some i =>
+      obtain ⟨g1, g2⟩ := f3 i rfl
+      have hi := f1 i (List.mem_of_getLast? g1)
+      rw [hAt_mkH_lt hi] at g2
+      have hw : ({ health := health, picks := picks, result := res } : Rec).weighted = true := by
+        rw [weighted_of_last (l := i) g1]; exact g2
+      rw [hw]
+      simp only [if_true]
+      rw [hsome i rfl, g1]
+      simp
+    | none =>
+      obtain ⟨g1, g2⟩ := f4 rfl
+      have hw : ({ health := health, picks := picks, result := res } : Rec).weighted = false := by
+        cases hlast : picks.getLast? with
+        | none => simp [Rec.weighted, hlast]
+        | some l =>
+          rw [weighted_of_last (l := l) hlast]
+          have hm := List.mem_of_getLast? hlast
+          have := g2 l hm
+          rw [hAt_mkH_lt (f1 l hm)] at this
+          exact this
+      rw [hw]
+      simp only [Bool.false_eq_true, if_false, Bool.and_eq_true, Bool.or_eq_true, Bool.not_eq_true', beq_iff_eq]
+      exact ⟨Or.inr g1, good_specChoice (hnone rfl)⟩
+
+/-! ### sequences of health flips and lookups -/
+
+/-- all scheduler picks of a sequence of lookups, in order. -/
+def allPicks (recs : List Rec) : List Nat := recs.flatMap (·.picks)
+
+/-- **the scheduler does not see health**: over any sequence of health flips and lookups the scheduler picks made by
+the lookups (skipped and served ones), concatenated, are ONE run of the scheduler the sequence started with; the
+balancer keeps a scheduler over all hosts; and every lookup satisfies the per-lookup predicate. -/
+theorem runEv_facts (ws : List Nat) (h2 : 2 ≤ ws.length) (evs : List Ev) (health : List Bool) (st : LBState) (s : Sched)
+    (hst : st.sched = some s) (hok : SchedOK ws s) :
+    ∃ H s', (runEv ws health st evs).2.2.sched = some s' ∧ SchedOK ws s' ∧
+      s.run (wrrWeight ws) H = (allPicks (runEv ws health st evs).1, s') ∧
+      H.length = (allPicks (runEv ws health st evs).1).length ∧
+      ∀ r ∈ (runEv ws health st evs).1, lookupOk ws r = true := by
+  induction evs generalizing health st s with
+  | nil => exact ⟨[], s, by simpa [runEv] using hst, hok, by simp [runEv, allPicks, Sched.run], by simp [runEv, allPicks], by simp [runEv]⟩
+  | cons e r ih =>
+    cases e with
+    | flip i b =>
+      simp only [runEv, stepEv]
+      exact ih (health.set i b) st s hst hok
+    | look hints =>
+      have hn : 0 < ws.length := by omega
+      obtain ⟨q1, q2, _, _⟩ := look_step ws h2 health st s hst hints
+      obtain ⟨H1, r1, r2, r3⟩ := loopH_run ws (mkH ws health) hn ws.length s hok hints
+      have hl := look_lookupOk ws h2 health st s hst hok hints
+      obtain ⟨H2, s', i1, i2, i3, i4, i5⟩ := ih health (wrrChoose (mkH ws health) st { hints := hints }).st _ q1 r3
+      simp only [runEv, stepEv]
+      refine ⟨H1 ++ H2, s', i1, i2, ?_, ?_, ?_⟩
+      · rw [run_append _ _ _ _ (by rw [r1]; exact r2.symm), r1]
+        simp only [i3, allPicks, List.flatMap_cons, q2]
+      · simp only [allPicks, List.flatMap_cons, List.length_append, q2] at i4 ⊢
+        rw [r2, i4]
+      · intro x hx
+        simp only [List.mem_cons] at hx
+        rcases hx with rfl | hx
+        · exact hl
+        · exact i5 x hx
+
+/-! ### counting weighted serves -/
+
+theorem lookupOk_parts {ws : List Nat} {r : Rec} (h : lookupOk ws r = true) :
+    (∀ x ∈ r.picks, x < ws.length) ∧ (∀ x ∈ r.picks.dropLast, r.healthyAt x = false) ∧
+    ((decide (2 ≤ ws.length) && !wsEqual ws) = true → r.picks ≠ []) ∧
+    (r.weighted = true → r.result = r.picks.getLast?) := by
+  unfold lookupOk at h
+  simp only [Bool.and_eq_true, List.all_eq_true, decide_eq_true_eq, Bool.or_eq_true, Bool.not_eq_true'] at h
+  obtain ⟨⟨⟨a, b⟩, c⟩, d⟩ := h
+  refine ⟨a, b, ?_, ?_⟩
+  · intro he
+    rcases c with c | c
+    · rw [he] at c; simp at c
+    · intro hnil; rw [hnil] at c; simp at c
+  · intro hw
+    rw [hw] at d
+    simpa using d
+
+/-- a lookup that sees host `i` healthy picks `i` exactly when it serves `i` by a weighted pick. -/
+theorem count_picks_of_ok {ws : List Nat} {r : Rec} (hok : lookupOk ws r = true) {i : Nat}
+    (hi : r.healthyAt i = true) : r.picks.count i = if (r.weighted && r.result == some i) then 1 else 0 := by
+  obtain ⟨_, b, _, d⟩ := lookupOk_parts hok
+  cases hlast : r.picks.getLast? with
+  | none =>
+    have : r.picks = [] := List.getLast?_eq_none_iff.mp hlast
+    simp [this, Rec.weighted]
+  | some l =>
+    obtain ⟨ys, hys⟩ := List.getLast?_eq_some_iff.mp hlast
+    have hd : r.picks.dropLast = ys := by rw [hys]; simp
+    have hnot : i ∉ ys := by
+      intro hm
+      have := b i (by rw [hd]; exact hm)
+      rw [hi] at this; simp at this
+    rw [hys, List.count_append, List.count_eq_zero_of_not_mem hnot, weighted_of_last hlast]
+    by_cases hli : l = i
+    · subst hli
+      have hres := d (by rw [weighted_of_last hlast]; exact hi)
+      rw [hlast] at hres
+      simp [hi, hres]
+    · have hil : i ≠ l := fun h => hli h.symm
+      have h0 : List.count i [l] = 0 := by simp [hli]
+      rw [h0]
+      cases hw : r.healthyAt l
+      · simp
+      · have hres := d (by rw [weighted_of_last hlast]; exact hw)
+        rw [hlast] at hres
+        simp [hres, hli]
+
+theorem count_allPicks {ws : List Nat} {recs : List Rec} (hok : ∀ r ∈ recs, lookupOk ws r = true) {i : Nat}
+    (hi : healthyThroughout recs i = true) : (allPicks recs).count i = served recs i := by
+  induction recs with
+  | nil => rfl
+  | cons r rs ih =>
+    simp only [healthyThroughout, List.all_cons, Bool.and_eq_true] at hi
+    have h1 := count_picks_of_ok (hok r List.mem_cons_self) hi.1
+    have h2 := ih (fun x hx => hok x (List.mem_cons_of_mem _ hx)) hi.2
+    simp only [allPicks, List.flatMap_cons, List.count_append, served, List.countP_cons] at h2 ⊢
+    rw [h1, h2]
+    omega
+
+theorem length_allPicks {ws : List Nat} {recs : List Rec} (he : (decide (2 ≤ ws.length) && !wsEqual ws) = true)
+    (hok : ∀ r ∈ recs, lookupOk ws r = true) : recs.length ≤ (allPicks recs).length := by
+  induction recs with
+  | nil => simp
+  | cons r rs ih =>
+    have h1 := (lookupOk_parts (hok r List.mem_cons_self)).2.2.1 he
+    have h2 := ih (fun x hx => hok x (List.mem_cons_of_mem _ hx))
+    have : 0 < r.picks.length := List.length_pos_iff.mpr h1
+    simp only [allPicks, List.flatMap_cons, List.length_append, List.length_cons] at h2 ⊢
+    omega
+
+theorem allPicks_lt {ws : List Nat} {recs : List Rec} (hok : ∀ r ∈ recs, lookupOk ws r = true) :
+    ∀ x ∈ allPicks recs, x < ws.length := by
+  intro x hx
+  simp only [allPicks, List.mem_flatMap] at hx
+  obtain ⟨r, hr, hxr⟩ := hx
+  exact (lookupOk_parts (hok r hr)).1 x hxr
+
+/-! ### the lag bound on scheduler runs, integer form -/
+
+theorem run_lag_int (ws : List Nat) (s : Sched) (hok : SchedOK ws s) (H : List (Option Nat)) (i j : Nat)
+    (hi : i < ws.length) (hj : j < ws.length) :
+    (((s.run (wrrWeight ws) H).1.count i : Nat) : Int) * wrrW ws j -
+      (((s.run (wrrWeight ws) H).1.count j : Nat) : Int) * wrrW ws i ≤ wrrW ws i + wrrW ws j := by
+  obtain ⟨h1, h2, h3⟩ := hok
+  obtain ⟨ei, hei, rfl⟩ := mem_of_item_mem (l := s.entries) (i := i) (by rw [h3]; simpa using hi)
+  obtain ⟨ej, hej, rfl⟩ := mem_of_item_mem (l := s.entries) (i := j) (by rw [h3]; simpa using hj)
+  have a := lag_interval (wrrW ws) (wrrW_pos ws) H s h1 h2 hei hej
+  have b := lag_interval (wrrW ws) (wrrW_pos ws) [] s h1 h2 hei hej
+  simp only [Sched.run, lagVal, List.count_nil, Int.natCast_zero, Int.zero_mul, Int.sub_self] at b
+  have hle : ((lagVal (wrrW ws ei.item) (wrrW ws ej.item) ei.item ej.item
+      (s.run (fun k => ((wrrW ws k : Int) : Rat)) H).1 : Int) : Rat) ≤ ((wrrW ws ei.item + wrrW ws ej.item : Int) : Rat) := by
+    rw [Rat.intCast_add]
+    have b1 := b.1
+    have a2 := a.2
+    simp only [Rat.intCast_zero] at b1
+    grind
+  have := Rat.intCast_le_intCast.mp hle
+  unfold lagVal at this
+  exact this
+
 end MosnVerif.Model.WrrHealth
